@@ -77,6 +77,21 @@ def _strategy_sequences(rep, M, B, file):
                 break
         if bad:
             break
+    # a long outage: thousands of consecutive failures (2^(n-1) leaves every float / fixed-width range on the way) -- the strategy keeps answering the cap
+    if not bad:
+        for m in (60, 3600):
+            obj = AObj("ExponentialBackOff", {}, cls_key=key)
+            AE.apply(init, [obj])
+            obj.attrs["max_delay"] = m
+            for n in range(1, 2201):
+                rf = call(obj, "failure")
+                r = call(obj, "current_delay_sec") if rf[0] != "raise" else rf
+                want = min(2 ** (n - 1), m)
+                if r[0] != "value" or r[1] != want:
+                    bad = (m, 0, n, (f"failure() raises {rf[1]}" if rf[0] == "raise" else f"current_delay_sec raises {r[1]}" if r[0] == "raise" else f"reports {r[1]} instead of {want}"))
+                    break
+            if bad:
+                break
     rep.count("strategy_calls", n_calls)
     if bad:
         m, prefix, n, txt = bad
@@ -85,7 +100,7 @@ def _strategy_sequences(rep, M, B, file):
                       "a reset does not return the strategy to its initial state: the delays after a reset depend on the failures before it", file, B.methods["failure"].node.lineno,
                       witness=f"max_delay={m}, {prefix} failure(s) then reset, then n={n}: {txt}" if prefix else f"max_delay={m}, n={n}: {txt}")
     else:
-        rep.ok("R1", "failure/reset sequences", f"interpreted on {len(maxes)} max_delay values x 5 histories before a reset x n = 1..{nmax}: delay = min(2^(n-1), max_delay) counted from the last reset; 0 after reset; max_delay untouched ({n_calls} calls)")
+        rep.ok("R1", "failure/reset sequences", f"interpreted on {len(maxes)} max_delay values x 5 histories before a reset x n = 1..{nmax}, and on outages of 2200 consecutive failures: delay = min(2^(n-1), max_delay) counted from the last reset; 0 after reset; max_delay untouched; nothing raises ({n_calls} calls)")
 
 
 def check(src, rep):
@@ -200,7 +215,9 @@ def check(src, rep):
             if bad:
                 break
     except CannotEval as e:
-        raise Undecided(f"back-off transfer function outside the evaluable subset: {e}")
+        rep.notes.append(f"R1: the extracted transfer functions are outside the evaluable subset ({e}): the large-domain tabulation is skipped; the interpreted failure/reset "
+                         "sequences above (incl. the long outage) decide the recurrence")
+        return _rest(rep, M, CM, file)
     rep.count("recurrence_evaluations", n_eval)
     if bad:
         rep.violation("R1", f"{MOD}.ExponentialBackOff.failure", "recurrence", "after n consecutive failures the strategy does not report min(2^(n-1), max_delay)", file, B.methods["failure"].node.lineno,
